@@ -205,7 +205,6 @@ void list_output_65816(
   uint32_t end)
 {
   char instruction[128];
-  char bytes[32];
   int cycles_min,cycles_max;
   int count = end - start;
   int n;
@@ -221,16 +220,22 @@ void list_output_65816(
     &cycles_min,
     &cycles_max);
 
-  bytes[0] = 0;
+  // The range can be longer than one instruction (the copies of a .repeat
+  // block), so the bytes are printed one by one instead of being collected
+  // in a fixed buffer; the column is padded to the 16 characters of "%-16s".
+  fprintf(asm_context->list, "0x%04x: ", start);
+
+  int width = 0;
 
   for (n = 0; n < count; n++)
   {
-    char temp[4];
-    snprintf(temp, sizeof(temp), "%02x ", memory->read8(start + n));
-    strcat(bytes, temp);
+    fprintf(asm_context->list, "%02x ", memory->read8(start + n));
+    width += 3;
   }
 
-  fprintf(asm_context->list, "0x%04x: %-16s %-40s cycles: ?\n", start, bytes, instruction);
+  for (; width < 16; width++) { fputc(' ', asm_context->list); }
+
+  fprintf(asm_context->list, " %-40s cycles: ?\n", instruction);
 
 #if 0
   if (cycles_min == cycles_max)
